@@ -65,6 +65,14 @@ func stopScenarios(c *core.Ctx, hidx int, planLen, ntx int, reps int) []stopScn 
 			add(faultSpec{Kind: "handler-err-cancel", At: j, Lock: lock})
 		}
 		add(faultSpec{Kind: "cancel-blocked", At: j})
+		// the master ends the stream (FIN / RST / ERR / EOF) while the handler is blocked
+		for _, k := range []string{"fin-blocked", "rst-blocked", "err-blocked", "eof-blocked"} {
+			f := faultSpec{Kind: k, At: j}
+			if k == "err-blocked" {
+				f.Code, f.Msg, f.State = uint16(1+r.Intn(65535)), randMsg(r), "HY000"
+			}
+			add(f)
+		}
 	}
 	for n := 0; n < 3; n++ {
 		for _, lock := range []bool{false, true} {
@@ -157,6 +165,49 @@ func runStop(c *core.Ctx, s *run.Session, l *hist.Layout, start hist.Pos, scn st
 		}
 		ob.Reader = state
 		s.Cancel()
+		s.ReleaseHandler()
+		ob.Res = rn.Wait(maxWait)
+		finishObs(s, ob, o)
+		return ob
+	case "fin-blocked", "rst-blocked", "err-blocked", "eof-blocked":
+		// the handler blocks at transaction j; the master, far ahead, finishes its
+		// script and ends the stream its way; only then is the handler released
+		ob := &attemptObs{Spec: spec, Reader: "unknown", Handler: "blocked"}
+		scr := &sim.Script{}
+		switch spec.Kind {
+		case "fin-blocked":
+			scr.End = sim.EndFIN
+		case "rst-blocked":
+			scr.End = sim.EndRST
+		case "err-blocked":
+			scr.End, scr.EndCode, scr.EndMsg, scr.EndState = sim.EndErr, spec.Code, spec.Msg, spec.State
+		default:
+			scr.End = sim.EndEOF
+		}
+		s.M.SetScripts(scr)
+		hs := run.NoFaults()
+		hs.BlockAt = spec.At
+		hs.InlineError = o.InlineError
+		rn := s.Start(hs, nil)
+		blocked := false
+		select {
+		case <-s.Blocked():
+			blocked = true
+		case <-rn.Done():
+		case <-time.After(maxWait):
+		}
+		if blocked {
+			// wait until the master has done its part
+			for i := 0; i < 4000; i++ {
+				conns := s.M.Conns()
+				if len(conns) > 0 && conns[len(conns)-1].Snapshot().Finished {
+					break
+				}
+				time.Sleep(250 * time.Microsecond)
+			}
+			ob.Reader = readerState(run.LibGoroutines(nil))
+			ob.Reached = true
+		}
 		s.ReleaseHandler()
 		ob.Res = rn.Wait(maxWait)
 		finishObs(s, ob, o)
